@@ -6,13 +6,14 @@
 
 
 from collections import defaultdict
+import copy
 from itertools import chain
 
 import nbformat
 
 import nbdime.log
 from .chunks import chunk_typename
-from .decisions import MergeDecisionBuilder, push_patch_decision
+from .decisions import MergeDecisionBuilder, push_patch_decision, resolve_action
 from ..diff_format import (
     DiffOp, ParentDeleted,
     op_patch, op_addrange, op_removerange, op_add, op_replace)
@@ -116,7 +117,7 @@ def collect_unresolved_diffs(base_path, unresolved_conflicts):
 
 
 
-def bundle_decisions_by_index(base_path, decisions):
+def bundle_decisions_by_index(base_path, decisions, base=None):
     """"""
     decisions_by_index = defaultdict(list)
     level = len(base_path)
@@ -128,6 +129,14 @@ def bundle_decisions_by_index(base_path, decisions):
             key = d.common_path[level]
             # Wrap decision diffs in patches so common_path points to list
             prefix = d.common_path[level:]
+            if base is not None and d.action in ("clear", "remove"):
+                # These actions address a key of the value at common_path
+                # (e.g. clear the execution_count of an output). Once the
+                # decision is moved up that key would be taken for an index
+                # of the list, so spell the resolution out as a diff first
+                d = copy.copy(d)
+                d.custom_diff = resolve_action(resolve_path(base, prefix), d)
+                d.action = "custom"
             d = push_patch_decision(d, prefix)
         else:
             # Removerange or addrange will have common_path
@@ -404,7 +413,7 @@ def make_inline_cell_conflict(base_cells, local_diff, remote_diff):
 def resolve_strategy_remove_outputs(base_path, outputs, decisions):
     strategy = "remove"
 
-    decisions_by_index = bundle_decisions_by_index(base_path, decisions)
+    decisions_by_index = bundle_decisions_by_index(base_path, decisions, outputs)
     decisions.decisions = []
     for key, decs in sorted(decisions_by_index.items()):
         if not any(d.conflict for d in decs):
@@ -427,7 +436,7 @@ def resolve_strategy_remove_outputs(base_path, outputs, decisions):
 def resolve_strategy_inline_outputs(base_path, outputs, decisions):
     strategy = "inline-outputs"
 
-    decisions_by_index = bundle_decisions_by_index(base_path, decisions)
+    decisions_by_index = bundle_decisions_by_index(base_path, decisions, outputs)
     decisions.decisions = []
     for key, decs in sorted(decisions_by_index.items()):
         if not any(d.conflict for d in decs):
